@@ -42,6 +42,7 @@ def trM : Nat → Val → Option Val
   | 14, .struct [x] => some x
   | 15, .struct [y] => some (.struct [y])
   | 16, .struct [z] => some (.ptr (some z))
+  | 17, .struct [.int s] => some (.int s)
   | _, _ => none
 
 def trU : Nat → Val → Option Val
@@ -62,6 +63,7 @@ def trU : Nat → Val → Option Val
   | 15, .struct [y] => some (.struct [y])
   | 16, .ptr (some z) => some (.struct [z])
   | 16, .ptr none => some (.struct [.str []])
+  | 17, .int s => some (.struct [.int s])
   | _, _ => none
 
 def trLib : Trs := ⟨trM, trU⟩
